@@ -71,7 +71,7 @@ def scan_trusted():
                     continue
                 p = os.path.join(root, f)
                 txt = open(p).read()
-                if root.startswith(overlay.CONTRACTS) and not f.startswith('_'):
+                if root.startswith(overlay.CONTRACTS) and f != '_appendix.rs':
                     # only the annotated half of a unit file
                     k = txt.find('//! ---- annotated ----')
                     txt = txt[k:] if k >= 0 else txt
@@ -274,16 +274,19 @@ def check_property(prop, tier='quick', seed=0):
         print("KNOWN-FINDING: property=%s %s: %s [%s]" % (prop, k['id'], k['what'], f.obligation))
     rc = 0
     for f in viol:
+        from . import replay
         try:
-            from . import replay
             replay.search(f, tier, seed)
-        except ImportError:
-            pass
+        except Exception as ex:  # the search is best effort
+            print("replay search failed: %r" % (ex,))
         p = write_replay(prop, f)
         tail = '' if f.witness else ' no-failing-input-found'
         print("obligation failed: %s\n%s" % (f.obligation, f.detail))
         print("VIOLATION property=%s replay=%s%s" % (prop, p, tail))
         rc = 1
+    if viol:
+        from . import replay
+        replay.cleanup()
     write_evidence(prop, tier, seed, spec, sel, stats, viol, kf, wall)
     if rc == 0:
         v = stats.get('verus', {})
